@@ -208,8 +208,10 @@ def impl(t, case):
     # (seeded change C06-10: a depth memo also written by relative walks)
     if len(objs) % 2:
         for x in reversed(objs):
-            for y in objs:
+            for y in reversed(objs):                 # nearest ancestors first; a non-ancestor raises before any walk
                 _q(lambda: tree.get_depth(x, y))
+        for x in reversed(objs):
+            for y in objs:
                 _q(lambda: tree.get_depth(x, relative_to=y, check_ancestor=False))
                 _q(lambda: tree.is_ancestor(x, y))
     un = []
